@@ -134,6 +134,24 @@ class Reporter:
 
 
 # ---------------------------------------------------------------- one layer
+# --- tie of kind (1) (task W20): Gen/DispatchWalk.lean is regenerated from DiagLayer._find_services_for_uds of the current source by the
+# Python->Lean translator and proved equal to the hand-written Trie.walk (Proofs/DispatchWalkGenEq.lean)
+LEAN_TARGETS = LEAN_TARGETS + ["OdxVerif.Props.C06Gen"]
+THEOREMS = THEOREMS + [P + t for t in ["gen_findServices_eq", "C06_gen_walk_eq", "C06_gen_prefix_tree_complete_partial"]]
+TRUSTED = TRUSTED + ["translator harness/extract/py2lean.py + primitives lean/OdxVerif/Model/PyRt.lean for DiagLayer._find_services_for_uds (the prefix "
+                     "tree dict is the model's Trie: b in tree / tree[b] = Trie.find?, -1 in tree / tree[-1] = Trie.leaf with [] = key absent; "
+                     "self._prefix_tree is an abstract attribute of the rendering; odxassert(isinstance(tree[b], dict)) is a typing assertion)"]
+
+
+def regen_dispatch_walk(ctx):
+    """Gen/DispatchWalk.lean from the current source; Unsupported (source left the translator's subset) = broken obligation"""
+    from extract import py2lean
+    py2lean.regenerate_findsvc(common.REPO, common.VERIF)
+
+
+GENERATORS = list(globals().get("GENERATORS", [])) + [regen_dispatch_walk]
+
+
 def messages_for(desc, view, rng, big):
     """[(msg, tag)] and [(response, request, expected (service no, coding no) | None)]"""
     msgs, pairs, own_of = {}, [], {}
